@@ -4,6 +4,7 @@ import (
 	"bytes"
 	"fmt"
 	"io"
+	"runtime"
 	"runtime/debug"
 	"sync"
 	"testing"
@@ -130,11 +131,12 @@ func TestC06(t *testing.T) {
 	if rec.Race() {
 		n = rec.N(1500, 30000)
 	}
+	done := 0
 	rec.Suite("histories", n, func(c *ev.Case) {
 		r := c.R
-		if c.I%2000 == 0 && !rec.Race() {
-			debug.SetGCPercent(100)
-			debug.SetGCPercent(-1)
+		// a counter of this child's own cases (c.I only takes the values of this batch)
+		if done++; done%1000 == 0 && !rec.Race() {
+			runtime.GC()
 		}
 		big := r.IntN(4) == 0
 		base := c06Tree(c, big)
